@@ -434,6 +434,28 @@ impl World {
         out
     }
 
+    /// A flow id that has been used before is taken again while NOTHING of its previous incarnation is left
+    /// anywhere: no frame under that id on either wire, no stream of it that an application still holds, no
+    /// request pending under it, nothing held back by a sink or waiting in the inbox of a parked receive
+    /// loop. Such a reuse is like a fresh id (C06: "nothing of the old stream leaks into it"): the monitors
+    /// stay strict. Only a reuse that meets leftovers of the previous incarnation is the known protocol
+    /// weakness (flow ids carry no epoch) recorded in known_findings.txt.
+    fn reuse_is_clean(&self, id: u32) -> bool {
+        if self.in_batch || self.sink_blocked[0] || self.sink_blocked[1] { return false; }
+        for e in 0..2 {
+            if self.wire[e].iter().any(|m| parse_head(m).is_some_and(|(op, fid)| op != 6 && fid == id)) { return false; }
+            if self.backlog[e][0] >= self.opts[e].accept_cap || (self.opts[e].bind_cap > 0 && self.backlog[e][1] >= self.opts[e].bind_cap) { return false; }
+            if self.pend[e].contains_key(&id) || self.bind_ids[e].contains(&id) || self.inc[e].values().any(|v| *v == id) { return false; }
+            if self.view[e].exited || self.view[e].terminated_by.is_some() || !self.view[e].mux_alive { return false; }
+        }
+        if let Some(port) = self.fid_port.get(&id) {
+            for e in 0..2 {
+                if self.view[e].handles.iter().any(|h| h.alive && h.port == Some(*port)) { return false; }
+            }
+        }
+        true
+    }
+
     #[allow(clippy::too_many_lines)]
     fn observe(&mut self, e: usize, t: &[&str], out: &str) {
         // flow-id reuse is noticed when the id is drawn (the frame that carries it may be held back
@@ -443,7 +465,7 @@ impl World {
             let drawn: Vec<u32> = self.sims[e].rng.drawn.lock().map(|d| d[n.min(d.len())..].to_vec()).unwrap_or_default();
             self.drawn_seen[e] += drawn.len();
             if std::env::var("PVH_DBG").is_ok() { eprintln!("drawn {e} {:x?} seen {:x?}", drawn, self.seen_ids); }
-            if drawn.iter().any(|id| self.seen_ids.contains(id)) {
+            if drawn.iter().any(|id| self.seen_ids.contains(id) && !self.reuse_is_clean(*id)) {
                 self.reused = true;
             }
         }
@@ -953,7 +975,7 @@ impl World {
                             _ => {}
                         }
                         let reused_before = self.reused;
-                        if (op == 0 || op == 5) && self.seen_ids.contains(&id) {
+                        if (op == 0 || op == 5) && self.seen_ids.contains(&id) && !self.reuse_is_clean(id) {
                             self.reused = true;
                         }
                         if op != 6 {
